@@ -3711,10 +3711,6 @@ void Interpreter::call_destructor(const std::string &var_name,
         }
     }
 
-    // v0.10.0: デストラクタ呼び出し中フラグを設定（無限再帰防止）
-    bool prev_flag = is_calling_destructor_;
-    is_calling_destructor_ = true;
-
     // デストラクタ本体を実行
     push_scope(); // デストラクタ用の新しいスコープ
 
@@ -3898,9 +3894,6 @@ void Interpreter::call_destructor(const std::string &var_name,
             debug_msg(DebugMsgId::GENERIC_DEBUG, dbg_buf);
         }
     }
-
-    // フラグを元に戻す
-    is_calling_destructor_ = prev_flag;
 }
 
 void Interpreter::register_destructor_call(
